@@ -303,3 +303,72 @@ Section Global.
     now apply (relabel_vertex_sets p cells idx nn Hlen Hidx).
   Qed.
 End Global.
+
+(* ------------------------------------------------------------------ f2e numbers mesh.edges: quadrilateral (unsorted, cyclic) facets *)
+Definition quad_pairs (q : list nat) : list (list nat) :=
+  map (fun b => sort_entity (slotv b q)) [[0; 1]; [1; 2]; [2; 3]; [0; 3]].
+
+(* q' lists the four vertices of q in the same cyclic order up to rotation / reversal *)
+Definition dihedral (q q' : list nat) : Prop :=
+  match q with
+  | [a; b; c; d] => In q' [[a; b; c; d]; [b; c; d; a]; [c; d; a; b]; [d; a; b; c];
+                           [d; c; b; a]; [c; b; a; d]; [b; a; d; c]; [a; d; c; b]]
+  | _ => False
+  end.
+
+Lemma se_swap x y : sort_entity [x; y] = sort_entity [y; x].
+Proof. apply sort_entity_perm, perm_swap. Qed.
+
+Lemma quad_pairs_dihedral q q' x : dihedral q q' -> (In x (quad_pairs q') <-> In x (quad_pairs q)).
+Proof.
+  destruct q as [|a [|b [|c [|d [|z q]]]]]; simpl; try tauto.
+  Opaque sort_entity.
+  intros [<-|[<-|[<-|[<-|[<-|[<-|[<-|[<-|[]]]]]]]]]; unfold quad_pairs, slotv; simpl;
+    rewrite ?(se_swap b a), ?(se_swap c b), ?(se_swap d c), ?(se_swap d a); tauto.
+  Transparent sort_entity.
+Qed.
+
+Theorem f2e_numbers_mesh_edges_quad cells facet_idx edge_idx bnd :
+  bnd = [[0; 1]; [1; 2]; [2; 3]; [0; 3]] ->
+  compose_ok facet_idx bnd edge_idx = true ->
+  (* conformity: every cell lists the vertices of each of its facets in the cyclic order of the stored facet column, up to
+     rotation / reversal *)
+  (forall s e, s < length facet_idx -> e < length cells ->
+     dihedral (nth (t2f_at cells facet_idx s e) (entities false cells facet_idx) []) (slotv (nth s facet_idx []) (nth e cells []))) ->
+  entities true (entities false cells facet_idx) bnd = entities true cells edge_idx.
+Proof.
+  intros Hb Hok Hconf. apply entities_ext. intros x.
+  unfold compose_ok in Hok. apply andb_true_iff in Hok. destruct Hok as [Ok1 Ok2]. rewrite forallb_forall in Ok1, Ok2.
+  assert (Bnd : forall fs b, In fs facet_idx -> In b bnd -> (forall i, In i b -> i < length fs) /\
+                 exists es, In es edge_idx /\ same2 (compose fs b) es = true).
+  { intros fs b Hfs Hbb. specialize (Ok1 fs Hfs). rewrite forallb_forall in Ok1. specialize (Ok1 b Hbb).
+    apply andb_true_iff in Ok1. destruct Ok1 as [B Ex]. rewrite forallb_forall in B. split.
+    - intros i Hi. apply Nat.ltb_lt. now apply B.
+    - apply existsb_exists in Ex. destruct Ex as [es [H1 H2]]. now exists es. }
+  assert (Htp : forall q, In x (map (fun b => sort_entity (slotv b q)) bnd) <-> In x (quad_pairs q)) by (intros q; rewrite Hb; reflexivity).
+  rewrite !in_keys_gen. split.
+  - intros [b [F [Hbin [HF ->]]]]. destruct (In_nth _ _ [] HF) as [j [Hj HFj]].
+    assert (Hj' : j < length (entities true cells facet_idx)).
+    { destruct (entities true cells facet_idx) as [|k0 r] eqn:E0.
+      - exfalso. unfold entities in Hj, E0. unfold build_entities in Hj, E0. simpl in Hj, E0.
+        rewrite map_length, first_index_length in Hj. unfold keys in *. rewrite E0 in Hj. simpl in Hj. lia.
+      - rewrite <- E0. destruct (entities_unsorted_spec cells facet_idx 0) as [L _]; [rewrite E0; simpl; lia|]. now rewrite <- L. }
+    destruct (entities_unsorted_spec cells facet_idx j Hj') as [_ [_ [s [e [Hs [He [_ [Hcol _]]]]]]]].
+    rewrite <- HFj, Hcol.
+    destruct (Bnd (nth s facet_idx []) b (nth_In _ _ Hs) Hbin) as [Bb [es [Hes Hsame]]].
+    exists es, (nth e cells []). split; [exact Hes|]. split; [now apply nth_In|].
+    rewrite slotv_compose by exact Bb. apply sort_entity_perm. unfold slotv. apply Permutation_map. now apply same2_perm.
+  - intros [es [c [Hes [Hc ->]]]]. destruct (In_nth _ _ [] Hc) as [e [He Hce]].
+    specialize (Ok2 es Hes). apply existsb_exists in Ok2. destruct Ok2 as [fs [Hfs Ex]].
+    apply existsb_exists in Ex. destruct Ex as [b' [Hb' Hsame]]. destruct (In_nth _ _ [] Hfs) as [s [Hs Hfss]].
+    destruct (Bnd fs b' Hfs Hb') as [Bb _].
+    assert (E1 : sort_entity (slotv es c) = sort_entity (slotv b' (slotv fs c))).
+    { rewrite slotv_compose by exact Bb. apply sort_entity_perm. unfold slotv. apply Permutation_map, Permutation_sym. now apply same2_perm. }
+    assert (Hin : In (sort_entity (slotv es c)) (quad_pairs (slotv fs c))).
+    { apply Htp. apply in_map_iff. exists b'. split; [now symmetry | exact Hb']. }
+    specialize (Hconf s e Hs He). rewrite Hfss, Hce in Hconf.
+    apply (quad_pairs_dihedral _ _ _ Hconf) in Hin. apply Htp in Hin. apply in_map_iff in Hin. destruct Hin as [b [Heq Hbin]].
+    exists b, (nth (t2f_at cells facet_idx s e) (entities false cells facet_idx) []). split; [exact Hbin|]. split; [|now symmetry].
+    apply nth_In. destruct (entities_unsorted_spec cells facet_idx (t2f_at cells facet_idx s e)) as [L _]; [now apply t2f_bound|].
+    rewrite L. now apply t2f_bound.
+Qed.
